@@ -741,9 +741,12 @@ def run(ctx: Ctx):
         "SQLite enforces PRIMARY KEY / UNIQUE / FOREIGN KEY ... ON DELETE CASCADE on the tags, dataset and summary tables as the "
         "model's insert primitives do (exercised by the correspondence on every run)",
         "the refinement theorems (abs_commutes, contents_eq_abstract) are stated for HONEST histories: every associate is handed refs "
-        "whose dataset type and data ID are those of the dataset's memberships (abs_commutes_step: needed for import only)",
-        "one dimension group {instrument, detector}; PostgreSQL backend, CHAINED / CALIBRATION collections, datastore records "
-        "(OrphanedRecordError) and dataset-type removal are outside the model",
+        "whose dataset type and data ID are those of the dataset's memberships (abs_commutes_step: needed for import only); "
+        "abs_commutes_guarded widens this to histories with forged associates whose imports satisfy import_guard",
+        "one dimension group {instrument, detector}; PostgreSQL backend and datastore records are outside the model; CHAINED / "
+        "CALIBRATION collections, certify, setCollectionChain and removeDatasetType are modelled in the second layer "
+        "(Model/RegistryX.v: no decertify, validity ranges over a finite grid of instants, dt2 = the calibration dataset type); "
+        "acyclicity of chain definitions is C03's subject (the second layer's flatten carries fuel = number of chains + 1)",
         "refs handed to associate / disassociate / removeDatasets are ones the registry returned earlier (possibly stale) "
         "or refer to datasets that never existed; a forged ref (live id with a different type or data ID) is outside the domain",
     ]
@@ -751,7 +754,10 @@ def run(ctx: Ctx):
         "a history (30 ops quick / 80 thorough over 5+1 collection names, 3+1 dataset types, 4+2 data ids, ids reused on "
         "purpose) is non-trivial when it contains at least one refused uniqueness conflict, one accepted associate that "
         "changed a TAGGED collection, one accepted insert/import and one removal that deleted tag rows; every step of every "
-        "history is probed through 8 interfaces over every (collection, type, data id)"
+        "history is probed through 8 interfaces over every (collection, type, data id); one third of the generated histories are "
+        "second-layer histories (6+1 names; CHAINED / CALIBRATION collections, setCollectionChain, certify, removeDatasetType mixed "
+        "in; chains and calibration collections probed through queryDatasets, query_datasets, queryDatasetAssociations, find-first, "
+        "find_dataset, getCollectionChain, summaries, raw dataset_calibs_* and collection_chain rows)"
     )
     props_ok = ctx.build_props(extra_targets=["Model/RegistryCheck.vo", "Model/RegistryXCheck.vo"])
     if not props_ok:
